@@ -18,6 +18,7 @@ class Progress:
     def __init__(self, F, CG):
         self.F, self.CG = F, CG
         self.memo = {}
+        self.boolenv = {}       # id of a bool local -> reader method whose result it holds
 
     def method(self, name):
         fs = self.F.fns(XR + "::" + name)
@@ -106,7 +107,23 @@ class Progress:
             # the loop condition established this (begin(tag) is idempotent until the reader advances)
             return self._paths(n["then"], adv, want, depth) if not adv else \
                 _dedupe(self._paths(n["then"], adv, want, depth) + self._paths(n.get("else"), adv, want, depth))
+        if k == "if" and n["c"].get("k") == "un" and n["c"].get("op") == "!" and _norm(n["c"]["e"]) in self.assume:
+            # `if (!begin(tag)) return false;` under a loop condition that established begin(tag)
+            return self._paths(n.get("else"), adv, want, depth) if not adv else \
+                _dedupe(self._paths(n["then"], adv, want, depth) + self._paths(n.get("else"), adv, want, depth))
         if k == "if":
+            # `const bool found = x(); ... if (found)`: in the branch where the local has the value v, the reader method
+            # x returned v - the branch has advanced if every path of x returning v advances
+            c0, neg = n["c"], False
+            while c0.get("k") in ("cast",) or (c0.get("k") == "un" and c0.get("op") == "!"):
+                if c0.get("k") == "un":
+                    neg = not neg
+                c0 = c0["e"]
+            if c0.get("k") == "ref" and c0.get("dk") == "local" and c0.get("id") in self.boolenv:
+                callee = self.boolenv[c0["id"]]
+                at = adv or self.must_advance(callee, not neg, depth + 1)
+                af = adv or self.must_advance(callee, neg, depth + 1)
+                return _dedupe(self._paths(n["then"], at, want, depth) + self._paths(n.get("else"), af, want, depth))
             out = []
             a0 = adv or self._expr_adv(n["c"], depth)
             thr = [(adv, ("throw", t)) for t in self._throws_te(n["c"])]
@@ -185,6 +202,12 @@ class Progress:
                     for t in self._throws_te(v["init"]):
                         out.append((a, ("throw", t)))
                     a = a or self._expr_adv(v["init"], depth)
+                    core = v["init"]
+                    while core.get("k") in ("cast",) or (core.get("k") == "construct" and len(core.get("args", [])) == 1):
+                        core = core["e"] if core.get("k") == "cast" else core["args"][0]
+                    if core.get("k") == "call" and "bool" in (v.get("t") or "") and \
+                            (core.get("cls") == XR or (core.get("fn") or "").startswith(XR + "::")):
+                        self.boolenv[v.get("id")] = core["name"]
             return _dedupe(out + [(a, "next")])
         # expression statement
         out = []
